@@ -371,8 +371,8 @@ class Summary:
         lvnum = {}
         for ev in r.events:
             if ev.kind == 'loop_enter':
-                for tn in ev.data[1]:
-                    lvnum.setdefault((tn, ev.data[0]), len(lvnum))
+                for tn, itx in ev.data[2]:          # in the order of the loop target, with the iteration term each one carries
+                    lvnum.setdefault((tn, itx), len(lvnum))
         self.lvnum = lvnum
         self._raw_returns = []
         # loop-carried values are ranked by what they are (loop, initial value, update), not by the order in which a traversal
